@@ -12,6 +12,15 @@
 //! datagrams.  Oracle: every frame handed to the device is parsed by `neigh::parse` (no
 //! smoltcp::wire) and judged against the model; see `NeighH::check_frame`.
 //!
+//! Progress ("socket data stays queued ... the gateway of the longest-prefix unexpired matching
+//! route"): see `NeighH::poll` — a poll during which nothing is rate limited and the socket is
+//! not backing off must either transmit the socket's oldest datagram or ask for its next hop
+//! whenever the model has a next hop (on-link or an unexpired matching route). This is what
+//! exposes a route lookup that wrongly answers "no route". Configurations `routing` and
+//! `routes2` hold overlapping routes (/24 or /64, /16 or /48, default) with lifetimes 60 s and
+//! 120 s via the same and via different gateways; `frag2` has a second neighbor whose oversized
+//! echo request competes for the single fragmentation buffer while fragments are pending.
+//!
 //! Lenient readings (statement leaves room; each can only accept more behaviours):
 //!  * "confirmed": any eligible assertion, or any IP packet addressed to one of our unicast
 //!    addresses whose IP source is the neighbor and whose link-layer source equals the asserted
